@@ -159,6 +159,11 @@ struct Case {
     rules: Vec<RuleSpec>,
     single_form: bool,
     in_place: bool,
+    /// "" = not given (retain_lines), else a generator name
+    generator: String,
+    /// Some((spelling, normalized path)): the input is this single file, written in a
+    /// non-normalized way (`./src/a.lua`, `src/./a.lua`, `src/x/../a.lua`), with an output file
+    single: Option<(String, String)>,
 }
 
 fn list_json(l: &[String], single_form: bool) -> Value {
@@ -183,6 +188,9 @@ impl Case {
             rules.push(o);
         }
         let mut c = json!({ "rules": rules });
+        if !self.generator.is_empty() {
+            c["generator"] = json!(self.generator);
+        }
         if !self.top_apply.is_empty() {
             c["apply_to_files"] = list_json(&self.top_apply, self.single_form);
         }
@@ -199,6 +207,8 @@ impl Case {
             "rules": self.rules.iter().map(|r| json!({"base": r.base, "apply": r.apply, "skip": r.skip})).collect::<Vec<_>>(),
             "single_form": self.single_form,
             "in_place": self.in_place,
+            "generator": self.generator,
+            "single": self.single.as_ref().map(|(a, b)| json!([a, b])),
         })
     }
     fn from_json(v: &Value) -> Option<Case> {
@@ -212,6 +222,8 @@ impl Case {
             rules: v.get("rules")?.as_array()?.iter().map(|r| RuleSpec { base: r["base"].clone(), apply: strs(&r["apply"]), skip: strs(&r["skip"]) }).collect(),
             single_form: v.get("single_form")?.as_bool()?,
             in_place: v.get("in_place").and_then(|b| b.as_bool()).unwrap_or(false),
+            generator: v.get("generator").and_then(|g| g.as_str()).unwrap_or("").to_string(),
+            single: v.get("single").and_then(|s| s.as_array()).and_then(|a| Some((a.first()?.as_str()?.to_string(), a.get(1)?.as_str()?.to_string()))),
         })
     }
 }
@@ -242,7 +254,23 @@ fn gen_case(t: &mut Tape) -> Case {
         rules.push(RuleSpec { base: serde_json::from_str(RULES[k]).unwrap(), apply, skip });
     }
     let (top_apply, top_skip) = if t.bool(110) { gen_filter_lists(t) } else { (vec![], vec![]) };
-    Case { files, top_apply, top_skip, rules, single_form: t.bool(128), in_place: t.bool(60) }
+    let files: Vec<(String, String)> = files;
+    let generator = ["", "", "retain_lines", "dense", "readable"][t.choose(5)].to_string();
+    let in_place = t.bool(60);
+    let single = if !in_place && t.bool(40) {
+        let (p, _) = &files[t.choose(files.len())];
+        let (dir, name) = p.rsplit_once('/').unwrap_or(("", p));
+        let spelled = match t.choose(4) {
+            0 => format!("./{}", p),
+            1 => format!("{}/./{}", dir, name),
+            2 => format!("{}/zz/../{}", dir, name),
+            _ => format!("./{}/./{}", dir, name),
+        };
+        Some((spelled, p.clone()))
+    } else {
+        None
+    };
+    Case { files, top_apply, top_skip, rules, single_form: t.bool(128), in_place, generator, single }
 }
 
 fn check(case: &Case) -> Result<bool, String> {
@@ -253,8 +281,13 @@ fn check(case: &Case) -> Result<bool, String> {
         resources.write(p, c).unwrap();
     }
     let r = catch(|| {
-        let mut options = Options::new(Path::new("src")).with_configuration(config);
-        if !case.in_place {
+        let mut options = match &case.single {
+            Some((spelled, _)) => Options::new(Path::new(spelled)).with_configuration(config),
+            None => Options::new(Path::new("src")).with_configuration(config),
+        };
+        if case.single.is_some() {
+            options = options.with_output(Path::new("out/one.lua"));
+        } else if !case.in_place {
             options = options.with_output(Path::new("out"));
         }
         darklua_core::process(&resources, options)
@@ -284,7 +317,18 @@ fn check(case: &Case) -> Result<bool, String> {
     }
     let later_filter = case.rules.iter().skip(1).any(|r| !r.apply.is_empty() || !r.skip.is_empty());
     for (p, c) in &case.files {
-        let out_path = if case.in_place { p.clone() } else { format!("out/{}", &p["src/".len()..]) };
+        if let Some((_, only)) = &case.single {
+            if only != p {
+                continue;
+            }
+        }
+        let out_path = if case.single.is_some() {
+            "out/one.lua".to_string()
+        } else if case.in_place {
+            p.clone()
+        } else {
+            format!("out/{}", &p["src/".len()..])
+        };
         let actual = resources.get(&out_path).ok();
         if !case.in_place {
             // inputs are never modified
@@ -306,7 +350,11 @@ fn check(case: &Case) -> Result<bool, String> {
             continue;
         }
         let reduced: Vec<String> = case.rules.iter().filter(|r| selected(&r.apply, &r.skip, p)).map(|r| r.base.to_string()).collect();
-        let ref_cfg = format!("{{\"rules\":[{}]}}", reduced.join(","));
+        let ref_cfg = if case.generator.is_empty() {
+            format!("{{\"rules\":[{}]}}", reduced.join(","))
+        } else {
+            format!("{{\"rules\":[{}],\"generator\":\"{}\"}}", reduced.join(","), case.generator)
+        };
         let expected = dl::process_one_named(c, &ref_cfg, p).map_err(|e| format!("reference run failed for {}: {}", p, e))?;
         match actual {
             None => return Err(format!("file {} matches the top-level filters but no output was written", p)),
@@ -328,7 +376,7 @@ fn check(case: &Case) -> Result<bool, String> {
         }
     }
     // nothing else appears under out/
-    if !case.in_place {
+    if !case.in_place && case.single.is_none() {
         for w in resources.walk("out") {
             let w = w.to_string_lossy().replace('\\', "/");
             let rel = w.trim_start_matches("out/");
